@@ -258,16 +258,28 @@ fn xml_payload<T: xml::Serialize>(val: &T) -> Bytes {
     buf.into()
 }
 
+/// A header value carries at most `u16::MAX` bytes: longer text is cut at a character boundary,
+/// so that the error is still framed instead of failing the stream.
+fn truncate_header_value(s: &str) -> &str {
+    let mut end = s.len().min(usize::from(u16::MAX));
+    while !s.is_char_boundary(end) {
+        end -= 1;
+    }
+    &s[..end]
+}
+
 fn request_level_error(e: &S3Error) -> Message {
     let code = match e.code().as_static_str() {
         Some(s) => static_str(s),
         None => match e.code() {
-            S3ErrorCode::Custom(s) => s.as_bytes().clone(),
+            S3ErrorCode::Custom(s) => Bytes::copy_from_slice(truncate_header_value(s).as_bytes()),
             _ => unreachable!(),
         },
     };
 
-    let message = e.message().map_or_else(Bytes::new, |s| Bytes::copy_from_slice(s.as_bytes()));
+    let message = e
+        .message()
+        .map_or_else(Bytes::new, |s| Bytes::copy_from_slice(truncate_header_value(s).as_bytes()));
 
     let mut headers = SmallVec::with_capacity(3);
     headers.push(header(static_str(":error-code"), code));
